@@ -39,6 +39,12 @@ def correspondence(chk, drv):
     pbc = import_repo()
     n = 40 if chk.tier == 'quick' else 3000
     trajcorr.corr_fire(chk, drv, pbc, n, cfg_default=0.7)
+    # range rows in (nearly) every integration step across the zero and the sonic crossings, plain and extra: an event that falls
+    # into the very step that also produces a range row
+    trajcorr.corr_fire(chk, drv, pbc, 10 if chk.tier == 'quick' else 500, cfg_default=0.8, label='fire-dense',
+                       gen_kwargs=lambda rng: {'flat': True, 'allow_cant': False, 'max_look': 10.0,
+                                               'mv': rng.choice([rng.uniform(1125, 1190), rng.uniform(1125, 1190), rng.uniform(1500, 3000)])},   # half of them go subsonic within the range
+                       requests=lambda rng: (rng.choice([300.0, 600.0]), rng.choice([0.5, 1.0, 1.5]), rng.random() < 0.7, 0.0))
 
 
 def fire(pbc, calc, shot, R, step, extra=False, ts=0.0):
@@ -73,6 +79,10 @@ def search(chk, broken):
         step = rng.choice([50.0, 100.0, R / 10, rng.uniform(20, 200)])
         if rng.random() < 0.3:      # a recording step below the maximum integration step vs a multiple of it
             R, step = 48.0, rng.choice([0.25, 0.375, 0.125])
+        elif rng.random() < 0.4:    # range rows in (nearly) every step across the sonic crossing: an event in the step that also records a range row
+            shot, _ = sg.gen_shot(pbc, rng, flat=True, allow_cant=False, max_look=10.0, mv=rng.uniform(1125, 1190))
+            calc = pbc.Calculator()
+            R, step = 600.0, rng.choice([0.5, 1.0, 1.5])
         base, why = fire(pbc, calc, shot, R, step)
         if why or len(base) < 3:
             continue
